@@ -19,4 +19,11 @@ static inline void verif_set_error(zckCtx *z, int fatal) {
 #define set_error(zck, ...)       ((void)(0, __VA_ARGS__), verif_set_error(zck, 0))
 #define set_fatal_error(zck, ...) ((void)(0, __VA_ARGS__), verif_set_error(zck, 1))
 #define zck_log(...)              ((void)(0, __VA_ARGS__))
+#include "contracts/names.h"
+/* DESIGN.md section 4.7: block size of the copy loops may be overridden per unit (stated
+ * abstraction, listed in the unit's assumptions). */
+#ifdef VERIF_BUF_SIZE
+#undef BUF_SIZE
+#define BUF_SIZE VERIF_BUF_SIZE
+#endif
 #endif
